@@ -149,7 +149,8 @@ def run(ctx):
     ctx.notes["observations"] = [
         "draw_integers(0, d, _) returns 1000 values (the length test follows the push): outside the property's quantifier "
         "(counts 1..255), modelled faithfully and proved as C19_draw_integers_zero_count",
-        "draw_integers does not de-duplicate; counts >= domain size and non-power-of-two domains are the documented panics",
+        "draw_integers does not de-duplicate; a count >= domain size is the documented Err (coin untouched), a non-power-of-two "
+        "domain the documented panic",
         "check_leading_zeros counts TRAILING zero bits of the little-endian u64 head (doc comment says leading/big-endian); "
         "prover and verifier call the same function, C19_pow_measure_agree",
         "draw::<CubeExtension<f128>> panics (48 > 32 bytes) after advancing the counter; that extension is not supported",
